@@ -541,6 +541,17 @@ func runNoLossyGoConversion(rr *RuleRun) {
 			}
 			key := fmt.Sprintf("%s.%s/%s", pkg, declName(fd), trunc(exprStr(call), 40))
 			lossy := (ff && tf && tb < fb) || (!tf && tb < fb) || (ff && !tf && tb < 64)
+			// an integer conversion that changes signedness without gaining bits wraps too: a uint64 of 2^63 or
+			// more becomes a negative int, a negative int a huge unsigned number
+			signFlip := !ff && !tf && isUnsignedBasic(from) != isUnsignedBasic(to) && (isUnsignedBasic(to) || tb <= fb)
+			if signFlip && !lossy {
+				if why, ok := hashConversions[pkg+"."+declName(fd)]; ok {
+					rr.OKTrivial(key, call.Pos(), "tabled: "+why)
+					return true
+				}
+				rr.Violation(key, call.Pos(), fmt.Sprintf("%s converts a %s to %s: the two types have different signedness and the target has no more bits, so values in the upper half of the unsigned range (or negative values) wrap around silently — an index of 2^63 or more becomes negative and passes an upper-bound test", exprStr(call), from.Name(), to.Name()))
+				return true
+			}
 			if !lossy {
 				rr.OKTrivial(key, call.Pos(), "not a narrowing conversion")
 				return true
@@ -558,4 +569,13 @@ func runNoLossyGoConversion(rr *RuleRun) {
 			return true
 		})
 	})
+}
+
+func isUnsignedBasic(b *types.Basic) bool { return b.Info()&types.IsUnsigned != 0 }
+
+// hashConversions: functions whose result is a hash — any int will do, so wrapping an unsigned checksum into an
+// int loses nothing. Keyed by symbol.
+var hashConversions = map[string]string{
+	"cty.setRules.Hash":     "the result is a hash bucket number; wrapping the unsigned checksum is harmless",
+	"cty.pathSetRules.Hash": "the result is a hash bucket number; wrapping the unsigned checksum is harmless",
 }
